@@ -82,6 +82,7 @@ class SData(Sym):
 
 class SList(Sym):
     """List of symbolic length: mutable object (identity = aliasing)."""
+    fresh = False
 
     def __init__(self, length, arr, elem):
         self.len = length      # z3 Int
